@@ -37,10 +37,11 @@ pub open spec fn spaced(pv: Seq<(real, Seq<real>)>, i: int, h: real) -> bool { p
 // d is the user's derivative function evaluated AT TIME t (at the accepted or at the predicted state)
 pub open spec fn deriv_at(d: Seq<real>, t: real) -> bool { exists|p: Seq<real>| d == #[trigger] df_val(t, p) }
 // history entry i: the derivative belongs to the point's time; lengths agree with the state's
-pub open spec fn entry_ok(pv: Seq<(real, Seq<real>)>, pd: Seq<Seq<real>>, i: int, dim: nat) -> bool { deriv_at(pd[i], pv[i].0) && pd[i].len() == dim && pv[i].1.len() == dim }
+// (wd: the solver keeps a derivative history -- Adams; BDF keeps values only)
+pub open spec fn entry_ok(pv: Seq<(real, Seq<real>)>, pd: Seq<Seq<real>>, i: int, dim: nat, wd: bool) -> bool { (wd ==> deriv_at(pd[i], pv[i].0) && pd[i].len() == dim) && pv[i].1.len() == dim }
 // the history invariant of the multistep solvers (o = O, ym = yield_memory, sl = length of save_state, imp = implicit_derivs)
 #[verifier::opaque]
-pub open spec fn hist(o: int, dt: real, dtm: real, ym: int, time: real, end: real, pv: Seq<(real, Seq<real>)>, pd: Seq<Seq<real>>, sl: nat, state: Seq<real>, imp: Seq<real>) -> bool {
+pub open spec fn hist(o: int, wd: bool, dt: real, dtm: real, ym: int, time: real, end: real, pv: Seq<(real, Seq<real>)>, pd: Seq<Seq<real>>, sl: nat, state: Seq<real>, imp: Seq<real>) -> bool {
     let n = pv.len() as int;
     &&& dt > 0real && dt <= dtm && 0 <= ym <= o + 1
     // once the end is reached nothing is required any more -- except that no start-up points are still waiting to be yielded
@@ -50,88 +51,88 @@ pub open spec fn hist(o: int, dt: real, dtm: real, ym: int, time: real, end: rea
         // start-up points that wait for their validating multistep step: that step fits before the end
         &&& (ym == o && n > 0 ==> time + dt < end)
         &&& forall|i: int| 0 <= i < n - 1 ==> #[trigger] spaced(pv, i, dt)
-        &&& forall|i: int| 0 <= i < n ==> #[trigger] entry_ok(pv, pd, i, state.len())
+        &&& forall|i: int| 0 <= i < n ==> #[trigger] entry_ok(pv, pd, i, state.len(), wd)
         &&& n > 0 ==> if ym == 0 || ym == o { pv[n - 1] == (time, state) }
-                      else { pv[n - 1].0 + dt == time && deriv_at(imp, time) && imp.len() == state.len() }
+                      else { pv[n - 1].0 + dt == time && (wd ==> deriv_at(imp, time) && imp.len() == state.len()) }
     }
 }
 // the end time has been reached: nothing is required of the history any more
-pub proof fn lemma_hist_done(o: int, dt: real, dtm: real, ym: int, time: real, end: real, pv: Seq<(real, Seq<real>)>, pd: Seq<Seq<real>>, sl: nat, state: Seq<real>, imp: Seq<real>)
+pub proof fn lemma_hist_done(o: int, wd: bool, dt: real, dtm: real, ym: int, time: real, end: real, pv: Seq<(real, Seq<real>)>, pd: Seq<Seq<real>>, sl: nat, state: Seq<real>, imp: Seq<real>)
     requires dt > 0real, dt <= dtm, ym == 0 || (ym == o && pv.len() != o - 1), o >= 3, time >= end
-    ensures hist(o, dt, dtm, ym, time, end, pv, pd, sl, state, imp)
+    ensures hist(o, wd, dt, dtm, ym, time, end, pv, pd, sl, state, imp)
 { reveal(hist); }
-pub proof fn lemma_hist_empty(o: int, dt: real, dtm: real, ym: int, time: real, end: real, pv: Seq<(real, Seq<real>)>, pd: Seq<Seq<real>>, sl: nat, state: Seq<real>, imp: Seq<real>)
+pub proof fn lemma_hist_empty(o: int, wd: bool, dt: real, dtm: real, ym: int, time: real, end: real, pv: Seq<(real, Seq<real>)>, pd: Seq<Seq<real>>, sl: nat, state: Seq<real>, imp: Seq<real>)
     requires dt > 0real, dt <= dtm, ym == 0 || (ym == o && sl == state.len()), o >= 3, pv.len() == 0, pd.len() == 0
-    ensures hist(o, dt, dtm, ym, time, end, pv, pd, sl, state, imp)
+    ensures hist(o, wd, dt, dtm, ym, time, end, pv, pd, sl, state, imp)
 { reveal(hist); }
 // what a history that is in use provides
-pub proof fn lemma_hist_use(o: int, dt: real, dtm: real, ym: int, time: real, end: real, pv: Seq<(real, Seq<real>)>, pd: Seq<Seq<real>>, sl: nat, state: Seq<real>, imp: Seq<real>)
-    requires hist(o, dt, dtm, ym, time, end, pv, pd, sl, state, imp), !(time >= end && (ym == 0 || ym == o))
+pub proof fn lemma_hist_use(o: int, wd: bool, dt: real, dtm: real, ym: int, time: real, end: real, pv: Seq<(real, Seq<real>)>, pd: Seq<Seq<real>>, sl: nat, state: Seq<real>, imp: Seq<real>)
+    requires hist(o, wd, dt, dtm, ym, time, end, pv, pd, sl, state, imp), !(time >= end && (ym == 0 || ym == o))
     ensures dt > 0real, dt <= dtm, 0 <= ym <= o + 1, pd.len() == pv.len(), pv.len() == 0 || pv.len() == o - 1, ym != 0 && ym != o ==> pv.len() == o - 1,
         ym == o ==> sl == state.len(), ym == o && pv.len() > 0 ==> time + dt < end,
         forall|i: int| 0 <= i < pv.len() - 1 ==> #[trigger] spaced(pv, i, dt),
-        forall|i: int| 0 <= i < pv.len() ==> #[trigger] entry_ok(pv, pd, i, state.len()),
+        forall|i: int| 0 <= i < pv.len() ==> #[trigger] entry_ok(pv, pd, i, state.len(), wd),
         pv.len() > 0 && (ym == 0 || ym == o) ==> pv[pv.len() - 1] == (time, state),
-        pv.len() > 0 && !(ym == 0 || ym == o) ==> pv[pv.len() - 1].0 + dt == time && deriv_at(imp, time) && imp.len() == state.len(),
+        pv.len() > 0 && !(ym == 0 || ym == o) ==> pv[pv.len() - 1].0 + dt == time && (wd ==> deriv_at(imp, time) && imp.len() == state.len()),
 { reveal(hist); }
-pub proof fn lemma_hist_basic(o: int, dt: real, dtm: real, ym: int, time: real, end: real, pv: Seq<(real, Seq<real>)>, pd: Seq<Seq<real>>, sl: nat, state: Seq<real>, imp: Seq<real>)
-    requires hist(o, dt, dtm, ym, time, end, pv, pd, sl, state, imp), o >= 3
+pub proof fn lemma_hist_basic(o: int, wd: bool, dt: real, dtm: real, ym: int, time: real, end: real, pv: Seq<(real, Seq<real>)>, pd: Seq<Seq<real>>, sl: nat, state: Seq<real>, imp: Seq<real>)
+    requires hist(o, wd, dt, dtm, ym, time, end, pv, pd, sl, state, imp), o >= 3
     ensures dt > 0real, dt <= dtm, 0 <= ym <= o + 1,
         // C01: start-up points that still wait to be yielded are never abandoned: their validating step fits before the end
         ym == o && pv.len() == o - 1 ==> time + dt < end
 { reveal(hist); }
 // building a history that is in use
-pub proof fn lemma_hist_intro(o: int, dt: real, dtm: real, ym: int, time: real, end: real, pv: Seq<(real, Seq<real>)>, pd: Seq<Seq<real>>, sl: nat, state: Seq<real>, imp: Seq<real>)
+pub proof fn lemma_hist_intro(o: int, wd: bool, dt: real, dtm: real, ym: int, time: real, end: real, pv: Seq<(real, Seq<real>)>, pd: Seq<Seq<real>>, sl: nat, state: Seq<real>, imp: Seq<real>)
     requires dt > 0real, dt <= dtm, 0 <= ym <= o + 1, pd.len() == pv.len(), pv.len() == o - 1, o >= 3,
         ym == o ==> sl == state.len() && time + dt < end,
         forall|i: int| 0 <= i < pv.len() - 1 ==> #[trigger] spaced(pv, i, dt),
-        forall|i: int| 0 <= i < pv.len() ==> #[trigger] entry_ok(pv, pd, i, state.len()),
+        forall|i: int| 0 <= i < pv.len() ==> #[trigger] entry_ok(pv, pd, i, state.len(), wd),
         (ym == 0 || ym == o) ==> pv[pv.len() - 1] == (time, state),
-        !(ym == 0 || ym == o) ==> pv[pv.len() - 1].0 + dt == time && deriv_at(imp, time) && imp.len() == state.len(),
-    ensures hist(o, dt, dtm, ym, time, end, pv, pd, sl, state, imp)
+        !(ym == 0 || ym == o) ==> pv[pv.len() - 1].0 + dt == time && (wd ==> deriv_at(imp, time) && imp.len() == state.len()),
+    ensures hist(o, wd, dt, dtm, ym, time, end, pv, pd, sl, state, imp)
 { reveal(hist); }
 // yielding a start-up point only moves the counter
-pub proof fn lemma_hist_yield(o: int, dt: real, dtm: real, ym: int, ym2: int, time: real, end: real, pv: Seq<(real, Seq<real>)>, pd: Seq<Seq<real>>, sl: nat, state: Seq<real>, imp: Seq<real>)
-    requires hist(o, dt, dtm, ym, time, end, pv, pd, sl, state, imp), 0 < ym < o, ym2 == (if ym - 1 == 0 { o + 1 } else { ym - 1 }), o >= 3
-    ensures hist(o, dt, dtm, ym2, time, end, pv, pd, sl, state, imp), pv.len() == o - 1
+pub proof fn lemma_hist_yield(o: int, wd: bool, dt: real, dtm: real, ym: int, ym2: int, time: real, end: real, pv: Seq<(real, Seq<real>)>, pd: Seq<Seq<real>>, sl: nat, state: Seq<real>, imp: Seq<real>)
+    requires hist(o, wd, dt, dtm, ym, time, end, pv, pd, sl, state, imp), 0 < ym < o, ym2 == (if ym - 1 == 0 { o + 1 } else { ym - 1 }), o >= 3
+    ensures hist(o, wd, dt, dtm, ym2, time, end, pv, pd, sl, state, imp), pv.len() == o - 1
 { reveal(hist); }
 // handing over the first multistep point: it and its derivative enter the history together, the oldest entries leave
-pub proof fn lemma_hist_handover(o: int, dt: real, dtm: real, time: real, end: real, pv: Seq<(real, Seq<real>)>, pd: Seq<Seq<real>>, sl: nat, state: Seq<real>, imp: Seq<real>)
-    requires hist(o, dt, dtm, o + 1, time, end, pv, pd, sl, state, imp), o >= 3
-    ensures hist(o, dt, dtm, 0, time, end, pv.push((time, state)).drop_first(), pd.push(imp).drop_first(), sl, state, imp)
+pub proof fn lemma_hist_handover(o: int, wd: bool, dt: real, dtm: real, time: real, end: real, pv: Seq<(real, Seq<real>)>, pd: Seq<Seq<real>>, sl: nat, state: Seq<real>, imp: Seq<real>)
+    requires hist(o, wd, dt, dtm, o + 1, time, end, pv, pd, sl, state, imp), o >= 3
+    ensures hist(o, wd, dt, dtm, 0, time, end, pv.push((time, state)).drop_first(), pd.push(imp).drop_first(), sl, state, imp)
 {
     reveal(hist);
     let pv2 = pv.push((time, state)).drop_first(); let pd2 = pd.push(imp).drop_first(); let n = pv.len() as int;
     assert forall|i: int| 0 <= i < n - 1 implies #[trigger] spaced(pv2, i, dt) by {
         if i + 1 < n - 1 { assert(spaced(pv, i + 1, dt)); }
     }
-    assert forall|i: int| 0 <= i < n implies #[trigger] entry_ok(pv2, pd2, i, state.len()) by {
-        if i < n - 1 { assert(entry_ok(pv, pd, i + 1, state.len())); }
+    assert forall|i: int| 0 <= i < n implies #[trigger] entry_ok(pv2, pd2, i, state.len(), wd) by {
+        if i < n - 1 { assert(entry_ok(pv, pd, i + 1, state.len(), wd)); }
     }
 }
 // an accepted multistep point (time2, state2) with derivative imp2 = f(time2, .) enters the history, the oldest entry leaves
-pub proof fn lemma_hist_shift(o: int, dt: real, dtm: real, time: real, end: real, pv: Seq<(real, Seq<real>)>, pd: Seq<Seq<real>>, sl: nat, state: Seq<real>, imp: Seq<real>,
+pub proof fn lemma_hist_shift(o: int, wd: bool, dt: real, dtm: real, time: real, end: real, pv: Seq<(real, Seq<real>)>, pd: Seq<Seq<real>>, sl: nat, state: Seq<real>, imp: Seq<real>,
                               time2: real, state2: Seq<real>, imp2: Seq<real>)
-    requires hist(o, dt, dtm, 0, time, end, pv, pd, sl, state, imp), time < end, pv.len() > 0, o >= 3,
-        time2 == time + dt, state2.len() == state.len(), imp2.len() == state.len(), deriv_at(imp2, time2)
-    ensures hist(o, dt, dtm, 0, time2, end, pv.push((time2, state2)).drop_first(), pd.push(imp2).drop_first(), sl, state2, imp2)
+    requires hist(o, wd, dt, dtm, 0, time, end, pv, pd, sl, state, imp), time < end, pv.len() > 0, o >= 3,
+        time2 == time + dt, state2.len() == state.len(), wd ==> imp2.len() == state.len() && deriv_at(imp2, time2)
+    ensures hist(o, wd, dt, dtm, 0, time2, end, pv.push((time2, state2)).drop_first(), pd.push(imp2).drop_first(), sl, state2, imp2)
 {
     reveal(hist);
     let pv2 = pv.push((time2, state2)).drop_first(); let pd2 = pd.push(imp2).drop_first(); let n = pv.len() as int;
     assert forall|i: int| 0 <= i < n - 1 implies #[trigger] spaced(pv2, i, dt) by {
         if i + 1 < n - 1 { assert(spaced(pv, i + 1, dt)); }
     }
-    assert forall|i: int| 0 <= i < n implies #[trigger] entry_ok(pv2, pd2, i, state2.len()) by {
-        if i < n - 1 { assert(entry_ok(pv, pd, i + 1, state.len())); }
+    assert forall|i: int| 0 <= i < n implies #[trigger] entry_ok(pv2, pd2, i, state2.len(), wd) by {
+        if i < n - 1 { assert(entry_ok(pv, pd, i + 1, state.len(), wd)); }
     }
 }
 // an accepted multistep point right after start-up is kept aside (yield_memory O -> O - 1) until the start-up points are yielded
-pub proof fn lemma_hist_aside(o: int, dt: real, dtm: real, time: real, end: real, pv: Seq<(real, Seq<real>)>, pd: Seq<Seq<real>>, sl: nat, state: Seq<real>, imp: Seq<real>,
+pub proof fn lemma_hist_aside(o: int, wd: bool, dt: real, dtm: real, time: real, end: real, pv: Seq<(real, Seq<real>)>, pd: Seq<Seq<real>>, sl: nat, state: Seq<real>, imp: Seq<real>,
                               time2: real, state2: Seq<real>, imp2: Seq<real>)
-    requires hist(o, dt, dtm, o, time, end, pv, pd, sl, state, imp), time < end, pv.len() > 0, o >= 3,
-        time2 == time + dt, state2.len() == state.len(), imp2.len() == state.len(), deriv_at(imp2, time2)
-    ensures hist(o, dt, dtm, o - 1, time2, end, pv, pd, sl, state2, imp2)
-{ reveal(hist); assert forall|i: int| 0 <= i < pv.len() implies #[trigger] entry_ok(pv, pd, i, state2.len()) by { assert(entry_ok(pv, pd, i, state.len())); } }
+    requires hist(o, wd, dt, dtm, o, time, end, pv, pd, sl, state, imp), time < end, pv.len() > 0, o >= 3,
+        time2 == time + dt, state2.len() == state.len(), wd ==> imp2.len() == state.len() && deriv_at(imp2, time2)
+    ensures hist(o, wd, dt, dtm, o - 1, time2, end, pv, pd, sl, state2, imp2)
+{ reveal(hist); assert forall|i: int| 0 <= i < pv.len() implies #[trigger] entry_ok(pv, pd, i, state2.len(), wd) by { assert(entry_ok(pv, pd, i, state.len(), wd)); } }
 '''
 
 
